@@ -1,5 +1,73 @@
 """C01 -- see contracts/registry.json for the clauses; D kernels + bounded apply-level stand-in."""
+import itertools
+
+import gtirb
+
+from pyvc.run import BResult, Job
+
 from . import apply_bounded, kernels
+
+
+def overlapping_blocks(tier, seed):
+    """C01 on intervals whose blocks OVERLAP (nested, nested + a later block inside the outer one, chains): every block gets its own byte
+    interval during a rewrite (prepare_for_rewriting / split_byte_interval) and the intervals are re-joined afterwards; an edit addressed
+    at block + offset must land at that block's address + offset whatever the overlap structure"""
+    def run():
+        import logging
+        from gtirb_rewriting import RewritingContext
+        from gtirb_test_helpers import add_text_section, create_test_module
+        from bounded import scen
+        logging.getLogger("gtirb_rewriting").setLevel(logging.CRITICAL)
+        br = BResult()
+        br.bound = ("x86-64 interval of 12 one-byte instructions (push/pop, every offset is an instruction boundary) with 5 overlapping block layouts "
+                    "(nested, nested + later block inside the outer one, chain, identical, nested at the end); every single insert / delete / replace at every "
+                    "offset of every block")
+        br.clauses = ["C01/bytes-are-the-listing-edit(overlapping-blocks)", "C01/apply-does-not-raise(overlapping-blocks)"]
+        layouts = {"nested+later": [(0, 10), (2, 2), (6, 4), (10, 2)], "nested": [(0, 10), (3, 4), (10, 2)], "chain": [(0, 6), (4, 6), (10, 2)],
+                   "identical": [(0, 6), (0, 6), (6, 6)], "nested-at-the-end": [(0, 10), (7, 3), (10, 2)]}
+        data = bytes([0x50, 0x51, 0x52, 0x53, 0x54, 0x55, 0x56, 0x57, 0x58, 0x59, 0x5A, 0x5B])
+        distinct = set()
+        for lname, lay in layouts.items():
+            for bidx, (bo, bs) in enumerate(lay):
+                edits = [("ins", o, 0) for o in range(bs + 1)] + [("del", o, l) for o in range(bs) for l in (1, 2) if o + l <= bs and not (o == 0 and l == bs)] \
+                    + [("rep", o, 1) for o in range(bs)]
+                for op, o, l in edits:
+                    ir, m = create_test_module(gtirb.Module.FileFormat.ELF, gtirb.Module.ISA.X64)
+                    _, bi = add_text_section(m, address=0x1000)
+                    bi.contents = data
+                    bi.size = len(data)
+                    blocks = []
+                    for (off, sz) in lay:
+                        b = gtirb.CodeBlock(offset=off, size=sz)
+                        b.byte_interval = bi
+                        blocks.append(b)
+                    rc = RewritingContext(m, [])
+                    patch = scen.mkpatch("nop")
+                    if op == "ins":
+                        rc.insert_at(blocks[bidx], o, patch)
+                    elif op == "del":
+                        rc.delete_at(blocks[bidx], o, l)
+                    else:
+                        rc.replace_at(blocks[bidx], o, l, patch)
+                    br.cases += 1
+                    distinct.add((lname, bidx, op, o, l))
+                    desc = {"layout": lname, "blocks (offset, size)": lay, "edit": [op, "block %d" % bidx, o, l]}
+                    try:
+                        rc.apply()
+                    except Exception as ex:       # noqa
+                        br.failures.append({"clause": "C01/apply-does-not-raise(overlapping-blocks)", "witness": desc, "detail": "%s: %s" % (type(ex).__name__, str(ex)[:100])})
+                        continue
+                    (sect,) = [s for s in m.sections if s.name == ".text"]
+                    got = b"".join(bytes(i.contents) for i in sorted(sect.byte_intervals, key=lambda i: i.address))
+                    p = bo + o
+                    want = data[:p] + (b"\x90" if op in ("ins", "rep") else b"") + data[p + l:]
+                    if got != want:
+                        br.failures.append({"clause": "C01/bytes-are-the-listing-edit(overlapping-blocks)", "witness": desc, "detail": "section bytes %s expected %s" % (got.hex(), want.hex())})
+                    if len(br.samples) < 2:
+                        br.samples.append(desc)
+        br.nontrivial = len(distinct)
+        return br
+    return run
 
 
 def jobs(tier="quick", seed=0):
@@ -11,3 +79,4 @@ def jobs(tier="quick", seed=0):
             j.id = "C01/" + j.id
             yield j
     yield apply_bounded.job("C01", tier, seed)
+    yield Job("C01/overlapping-blocks-bounded", overlapping_blocks(tier, seed), kind="B", func="gtirb_rewriting.rewriting:RewritingContext.apply + prepare:prepare_for_rewriting")
